@@ -38,13 +38,16 @@ const bound = 20 * time.Second
 const limit = 1000 // the documented backlog limit
 
 type plan struct {
-	Codec       string   `json:"codec"`
-	CacheGop    bool     `json:"cache_gop"`
-	GopFrames   int      `json:"gop_frames"`
-	Frames      int      `json:"frames"`
-	Packets     int      `json:"packets"`
-	MaxG        int      `json:"max_key_spacing_packets"`
-	Stalls      [][2]int `json:"stalls"` // [park when the consumer has received n packets, release after the publisher has written m packets]
+	Codec     string   `json:"codec"`
+	CacheGop  bool     `json:"cache_gop"`
+	GopFrames int      `json:"gop_frames"`
+	Frames    int      `json:"frames"`
+	Packets   int      `json:"packets"`
+	MaxG      int      `json:"max_key_spacing_packets"`
+	Stalls    [][2]int `json:"stalls"` // [park when the consumer has received n packets, release after the publisher has written m packets]
+	// Resume[i][1] > 0: at the end of stall i the consumer is not released but reads only until
+	// Resume[i][0] packets are left in its backlog, then stalls again while Resume[i][1] more packets are published
+	Resume      [][2]int `json:"partial_resume,omitempty"`
 	PanicAt     int      `json:"panic_at"`
 	ClosePanics bool     `json:"close_panics_too,omitempty"`
 	KeyShape    string   `json:"key_shape"`
@@ -87,8 +90,11 @@ func genPlan(t *rapid.T) *plan {
 	keyShape := rapid.SampledFrom([]string{"idr", "sps,pps,idr", "stap(sps,pps),idr", "stap(sps,pps,idr)", "idr x3 slices", "sps,pps,idr(fu)"}).Draw(t, "keyShape")
 	pl.KeyShape = keyShape
 	want := limit + 3*pl.GopFrames + rapid.IntRange(50, 600).Draw(t, "extra")
-	if want > 5500 {
-		want = 5500
+	if rapid.Bool().Draw(t, "longLog") {
+		want += limit + 3*pl.GopFrames // room for "stall, partial resume, stall again"
+	}
+	if want > 7500 {
+		want = 7500
 	}
 	idr, slice, sps, pps := byte(esgen.H264IDR), byte(esgen.H264Slice), byte(esgen.H264SPS), byte(esgen.H264PPS)
 	single, agg, fu := rtppack.H264Single, rtppack.H264StapA, rtppack.H264FuA
@@ -185,6 +191,16 @@ func genPlan(t *rapid.T) *plan {
 			break
 		}
 		pl.Stalls = append(pl.Stalls, [2]int{park, rel})
+		var res [2]int
+		if hold > limit && rapid.IntRange(0, 1).Draw(t, "partialResume") == 0 {
+			// reads a little (down to a backlog below the limit), then stalls again for long
+			res = [2]int{rapid.IntRange(1, limit-1).Draw(t, "leaveInBacklog"), limit + pl.MaxG + rapid.IntRange(1, pl.MaxG+200).Draw(t, "hold2")}
+			if rel+res[1] >= len(pl.pubs)-pl.MaxG-2 {
+				res = [2]int{}
+			}
+		}
+		pl.Resume = append(pl.Resume, res)
+		rel += res[1]
 		at = rel + pl.MaxG + 2
 	}
 	if rapid.IntRange(0, 2).Draw(t, "panic?") == 0 {
@@ -229,6 +245,8 @@ func TestStallIsolationAndGopAlignedDrops(t *testing.T) {
 		res := &result{Plan: pl}
 		si := 0
 		parked := false
+		resumed := false
+		resumeUntil := 0
 		for i, p := range pl.pubs {
 			if si < len(pl.Stalls) && !parked && i == pl.Stalls[si][0] {
 				// park the consumer: the gate is armed once it has drained what it had, so the
@@ -260,9 +278,19 @@ func TestStallIsolationAndGopAlignedDrops(t *testing.T) {
 					evid.Violation(t, "backlog", res, "after packet %d the stalled consumer's backlog is %d > %d (limit) + %d (key spacing) + 1", i, q, limit, pl.MaxG)
 				}
 			}
-			if parked && i == pl.Stalls[si][1] {
+			if parked && i == pl.Stalls[si][1] && si < len(pl.Resume) && pl.Resume[si][1] > 0 && !resumed {
+				// partial resume: read until only Resume[si][0] packets are left, then stall on
+				resumed = true
+				if q := media.VerifQueueLen(s, scid); q > pl.Resume[si][0] {
+					stalled.Allow(q - pl.Resume[si][0])
+				}
+				resumeUntil = i + pl.Resume[si][1]
+				evid.Class("stall, partial resume, stall again")
+			}
+			if parked && ((resumed && i == resumeUntil) || (!resumed && i == pl.Stalls[si][1])) {
 				stalled.Release()
 				parked = false
+				resumed = false
 				si++
 				if !tr.WaitIdle(s, []media.CID{scid}, bound) {
 					evid.Violation(t, "stuck", res, "stalled consumer did not drain after release")
